@@ -548,6 +548,8 @@ impl DrawState {
         // accurately reflect the number of lines that have been displayed on the terminal, if the
         // full height exceeds the terminal height.
         let mut real_height = VisualLines::default();
+        // Whether the line written last is printed text rather than a bar
+        let mut text_pending = false;
 
         for (idx, line) in self.lines.iter().enumerate() {
             let line_height = line.wrapped_height(term_width);
@@ -556,6 +558,11 @@ impl DrawState {
             if matches!(line, LineType::Bar(_)) {
                 // Stop here if printing this bar would exceed the terminal height
                 if real_height + line_height > term.height().into() {
+                    // Printed text is always ended by a newline, also when not even the
+                    // first bar line fits below it
+                    if text_pending {
+                        term.write_line("")?;
+                    }
                     break;
                 }
 
@@ -569,6 +576,7 @@ impl DrawState {
             }
 
             term.write_str(line.as_ref())?;
+            text_pending = !matches!(line, LineType::Bar(_));
 
             if idx + 1 == self.lines.len() {
                 // For the last line of the output, keep the cursor on the right terminal
